@@ -19,7 +19,7 @@ SIGMA_FULL = SIGMA_QUICK + [45]
 ENTRY = ("iban.new", "iban.validate", "iban.is_valid")
 
 
-def small_scope(ctx: Ctx, maxlen: int, sigma: list[int]) -> dict:
+def small_scope(ctx: Ctx, maxlen: int, sigma: list[int], clauses: set | None = None) -> dict:
     """(A) exhaustive model over a synthetic table + (B) the same texts through the real
     library running on that same table."""
     with synth.scratch_package(synth.SMALL_IBAN_FILES, synth.SMALL_BANK_FILES, "c01small") as (root, pkg):
@@ -52,7 +52,7 @@ def small_scope(ctx: Ctx, maxlen: int, sigma: list[int]) -> dict:
                 k = text(e["out"]["val"])[:2]
                 accepted[k] = accepted.get(k, 0) + 1
         mism = calls.validate(ctx, "TraceCalls", events, env, "small", per_shard=40000)
-        calls.report(ctx, mism, CLAUSES)
+        calls.report(ctx, mism, clauses or CLAUSES)
         for cc in ("AA", "AB", "BA", "BB"):
             if cc not in accepted and not ctx.violations:
                 # every synthetic country must have accepted texts, else the model is vacuous
